@@ -33,6 +33,26 @@ theorem montgomery_reduce_spec (a : Int) (h : -(2147483648 * Q) < a ∧ a < 2147
   rw [wrap32_id _ (by omega)]
   refine ⟨_, rfl, ?_, ?_, ?_⟩ <;> omega
 
+/-- Montgomery reduction, tight form: for |a| ≤ 2^32·C the result is at most C + (q−1)/2 in magnitude
+    (r·2^32 = a − t·q with |t| ≤ 2^31). With C = F/2 this is what keeps the outputs of the inverse NTT far enough
+    from ±q for the later additions. -/
+theorem montgomery_reduce_tight (a C : Int) (hC : 0 ≤ C ∧ C ≤ 4190208) (h : -(4294967296 * C) ≤ a ∧ a ≤ 4294967296 * C) :
+    ∃ r, montgomery_reduce a = .ok r ∧ (r * 4294967296 - a) % Q = 0 ∧ -(C + 4190209) < r ∧ r < C + 4190209 := by
+  rw [Q_val] at *
+  have hq : Gen.Q_INV = 58728449 := by decide
+  simp only [montgomery_reduce, hq, Q_val]
+  have hw := wrap32_emod a
+  have ht := wrap32_emod (wrap32 a * 58728449)
+  have htr := wrap32_range (wrap32 a * 58728449)
+  generalize wrap32 (wrap32 a * 58728449) = t at *
+  generalize wrap32 a = w at *
+  rw [wrap64_id _ (by omega)]
+  have hdiv : (a - t * 8380417) % 4294967296 = 0 := by omega
+  rw [sub64_ok _ _ (by omega)]
+  simp only [bind, Except.bind, sar_eq, Int.reducePow]
+  rw [wrap32_id _ (by omega)]
+  refine ⟨_, rfl, ?_, ?_, ?_⟩ <;> omega
+
 /-- the checked build never panics on the documented domain, and the congruence is the stated one:
     r ≡ a·2^{-32}, expressed without division -/
 theorem montgomery_reduce_no_fault (a : Int) (h : -(2147483648 * Q) < a ∧ a < 2147483648 * Q) :
